@@ -263,6 +263,7 @@ func runC19Race(ctx *core.Ctx) {
 				job.TransformE = 1
 			}
 		}
+		job.SeqFirst = ctx.Rng.Intn(4) == 0
 		ctx.Count("race:shape:" + shape)
 		ctx.Count(fmt.Sprintf("race:goroutines:%02d", g))
 		ctx.Add("race", job)
